@@ -310,6 +310,13 @@ example :
     view bytewise (exV.apply bytewise (flushEdit 0 t)).entries [3] 9 = some [0xc2] ∧
     view bytewise (exV.apply bytewise (flushEdit 0 t)).entries [3] 7 = some [0xc1] := by decide
 
+/-- `base_level_for_key_sound` is about a cursor that starts at zero and only moves forward within ONE run of the
+builder.  A compaction that is retried after a transient storage error resumes from `compaction.restore()`: the
+extractor reads off that `save` copies the cursor and `restore` copies it back (an aliased snapshot would leave the
+cursor where the failed attempt stopped, and tables already passed would be skipped: a deletion marker could then be
+dropped above an older value). -/
+theorem code_save_copies_cursor : Gen.pickSaveCopiesCursor = true := by decide
+
 end GoLevel.C03
 
 def GoLevel.C03.theorems : List String :=
@@ -317,4 +324,5 @@ def GoLevel.C03.theorems : List String :=
    "GoLevel.C03.build_preserves_view", "GoLevel.C03.build_newest_cases",
    "GoLevel.C03.compaction_preserves_lookup", "GoLevel.C03.trivial_move_preserves_view",
    "GoLevel.C03.maintenance_preserves_view", "GoLevel.C03.flush_preserves_view",
-   "GoLevel.C03.base_level_for_key_sound", "GoLevel.C03.builder_cursor_preserves_view"]
+   "GoLevel.C03.base_level_for_key_sound", "GoLevel.C03.builder_cursor_preserves_view",
+   "GoLevel.C03.code_save_copies_cursor"]
